@@ -209,6 +209,31 @@ def checkJustify (text : List Int) (w : Int) (od : Options Int) (out : List Int)
         | none => pure ()
     return "ok"
 
+/-- C12 in paragraph mode, for paragraph separators made of line separators and the default trailing policy:
+the whole text's decomposition into lines is unaffected by paragraph mode, so the number of lines and the
+trailing separator are unchanged and every line comes out untouched (a paragraph's last line), merely
+space-collapsed, or justified as specified.  A necessary condition only (which line is a paragraph's last
+one is C11's homomorphism clause). -/
+def checkJustifyPara (text : List Int) (w : Int) (od : Options Int) (out : List Int) : String :=
+  let sep := od.lineSep
+  let made := !sep.isEmpty && !od.paraSep.isEmpty && od.paraSep.length % sep.length == 0 &&
+    (List.replicate (od.paraSep.length / sep.length) sep).flatten == od.paraSep
+  if !made then "skip:paragraph-separator-with-affixes"
+  else if od.noTrailing then "skip:non-default-trailing-policy"
+  else
+    let ins := Spec.bareLines text sep false
+    let outs := Spec.bareLines out sep false
+    if ins.length != outs.length then "fail:C12 number of lines changed (paragraph mode)"
+    else if (sep.isSuffixOf text) != (sep.isSuffixOf out) then "fail:C12 trailing separator changed (paragraph mode)"
+    else if !stableDom [text] [sep] then "ok"
+    else Id.run do
+      for (li, lo) in ins.zip outs do
+        if li != lo then
+          match checkJustifyLine w li lo with
+          | some e => return "fail:" ++ e ++ " (paragraph mode)"
+          | none => pure ()
+      return "ok"
+
 def checkAlign (text : List Int) (al w : Int) (od : Options Int) (out : List Int) : String :=
   if al == Gen.alignNone ∨ (al != Gen.alignLeft ∧ al != Gen.alignRight ∧ al != Gen.alignCenter) then
     (if out == text then "ok" else "fail:C13 alignment None/unknown changed the text")
@@ -232,6 +257,29 @@ def checkAlign (text : List Int) (al w : Int) (od : Options Int) (out : List Int
       let exp := Spec.apply text sep od.noTrailing (fun _ l => [alignTok l])
       if exp == out then "ok"
       else s!"fail:C13 lines are not padded as specified; expected {showText exp}"
+
+/-- C13 in paragraph mode, for paragraph separators made of line separators (no affixes) and the default
+trailing-separator policy: every paragraph is aligned on its own, line by line, exactly as specified, and
+the separators stay in place — the expected text is the separator-join of the SPECIFICATION's alignment of
+each piece (pieces = the paragraph decomposition of C11).  Seeded changes C13j, C13l. -/
+def checkAlignPara (text : List Int) (al w : Int) (od : Options Int) (out : List Int) : String :=
+  let sep := od.lineSep
+  let made := !sep.isEmpty && !od.paraSep.isEmpty && od.paraSep.length % sep.length == 0 &&
+    (List.replicate (od.paraSep.length / sep.length) sep).flatten == od.paraSep
+  if !made then "skip:paragraph-separator-with-affixes"
+  else if od.noTrailing then "skip:non-default-trailing-policy"
+  else if !stableDom [text] [sep] then "skip:outside-stable-domain"
+  else match paraCalls (.root text od) od with
+    | .error _ => "skip:model-error"
+    | .ok cs =>
+      let alignTok (l : List Int) : List Int :=
+        let li := toks l
+        joinToks (if al == Gen.alignLeft then Spec.alignLeft tkA w li
+          else if al == Gen.alignRight then Spec.alignRight tkA w li
+          else Spec.alignCenter tkA w li)
+      let exp := joinWith od.paraSep (cs.map fun (p, _, _) => Spec.apply p sep false (fun _ l => [alignTok l]))
+      if exp == out then "ok"
+      else s!"fail:C13 paragraph mode: the lines of a paragraph are not padded as specified (or a line/separator was lost); expected {showText exp}"
 
 def checkCollapse (text : List Int) (od : Options Int) (out : List Int) : String :=
   -- single U+0020 spaces are the only whitespace
@@ -291,7 +339,8 @@ def layoutStep (pid : String) (a : List String) (src : Obs) (res : Obs) : String
     | ["justify", _, w, o], .ed out _ _ _ =>
       match parseInt w, effOpts so o with
       | some w, some od =>
-        if parasOn od then (if pid == "C07" then checkNonWsPara "Justify" od text out false else "skip:paragraph-mode")
+        if parasOn od then (if pid == "C07" then checkNonWsPara "Justify" od text out false
+          else if pid == "C12" then checkJustifyPara text w od out else "skip:paragraph-mode")
         else if pid == "C12" then checkJustify text w od out
         else if pid == "C07" then checkNonWs "Justify" od.lineSep text out false
         else "skip:op"
@@ -299,7 +348,8 @@ def layoutStep (pid : String) (a : List String) (src : Obs) (res : Obs) : String
     | ["align", _, al, w, o], .ed out _ _ _ =>
       match parseInt al, parseInt w, effOpts so o with
       | some al, some w, some od =>
-        if parasOn od ∧ al ≥ 1 ∧ al ≤ 3 then (if pid == "C07" then checkNonWsPara "Align" od text out false else "skip:paragraph-mode")
+        if parasOn od ∧ al ≥ 1 ∧ al ≤ 3 then (if pid == "C07" then checkNonWsPara "Align" od text out false
+          else if pid == "C13" then checkAlignPara text al w od out else "skip:paragraph-mode")
         else if pid == "C13" then checkAlign text al w od out
         else if pid == "C07" then checkNonWs "Align" od.lineSep text out false
         else "skip:op"
